@@ -38,6 +38,19 @@ Proof.
 Qed.
 Print Assumptions C15_window_and_saturation.
 
+(* a control input given as a function of the span fraction (accepted like the functions of twist or sweep): the same mapping with the
+   function's value at the control point - and, like every other form of input, zero outside the control surface *)
+Corollary C15_function_input : forall left_side root tip sat symmetric factor (f : R -> R) s, 0 <= sat ->
+  delta_flap (PI / 180) left_side root tip sat [(symmetric, factor, CFun f)] s =
+    if in_surface root tip s
+    then clip sat ((if (negb left_side || symmetric)%bool then 1 else -1) * factor * f s * (PI / 180))
+    else 0.
+Proof.
+  intros. rewrite C15_delta_flap_spec by assumption. cbn [mixed_input input_at].
+  destruct (in_surface root tip s); [|reflexivity]. f_equal. ring.
+Qed.
+Print Assumptions C15_function_input.
+
 (* the flap-chord fraction inside the surface is the interpolated input (node values reproduced; constant = constant) *)
 Theorem C15_flap_fraction_interpolated : forall root tip s,
   in_surface root tip s = true ->
